@@ -13,6 +13,9 @@ var PropertyTagResolver TagResolver = propertyTokenResolver
 
 func propertyTokenResolver(in string) (string, error) {
 	split := strings.SplitN(in, "#", 2)
+	if len(split) < 2 {
+		return "", fmt.Errorf("property name is missing in '%v', expected '<file>#<property>'", in)
+	}
 	filename, property := split[0], split[1]
 	file, err := os.Open(filename)
 	if err != nil {
